@@ -51,6 +51,9 @@ type eCfg struct {
 	MinIntv   int64  `json:"min_interval"`
 	// request timing enabled in both frontends (no observable effect on any response; the branch exists in the code)
 	Timing bool `json:"timing,omitempty"`
+	// Omit: which of max_numwant / default_numwant / max_scrape_infohashes the configuration leaves out (bits 1, 2, 4):
+	// the frontends fill in their defaults (Config.Validate) - and must leave every other option alone doing so
+	Omit int `json:"omit,omitempty"`
 }
 
 type eReq struct {
@@ -213,10 +216,21 @@ func e2eRun(o *Out, kind string, cfg eCfg, reqs []eReq) {
 	}
 	rec := &eRec{done: make(chan struct{}, 16)}
 	rec.inner = middleware.NewLogic(middleware.ResponseConfig{AnnounceInterval: time.Duration(cfg.Interval), MinAnnounceInterval: time.Duration(cfg.MinIntv)}, store, nil, nil)
+	// what the configuration FILE says: the omitted numeric options are zero there; cfg carries the defaults the model works with
+	fileNW, fileDef, fileScr := cfg.MaxNW, cfg.DefNW, cfg.MaxScrape
+	if cfg.Omit&1 != 0 {
+		fileNW = 0
+	}
+	if cfg.Omit&2 != 0 {
+		fileDef = 0
+	}
+	if cfg.Omit&4 != 0 {
+		fileScr = 0
+	}
 	uf := udp.VerifNewOffline(rec, udp.Config{PrivateKey: cfg.Key, MaxClockSkew: time.Duration(cfg.SkewNs), EnableRequestTiming: cfg.Timing,
-		ParseOptions: udp.ParseOptions{AllowIPSpoofing: cfg.USpoof, MaxNumWant: cfg.MaxNW, DefaultNumWant: cfg.DefNW, MaxScrapeInfoHashes: cfg.MaxScrape}})
+		ParseOptions: udp.ParseOptions{AllowIPSpoofing: cfg.USpoof, MaxNumWant: fileNW, DefaultNumWant: fileDef, MaxScrapeInfoHashes: fileScr}})
 	hh, hstop := httpfe.VerifHandler(rec, httpfe.Config{Addr: "127.0.0.1:0", EnableRequestTiming: cfg.Timing, AnnounceRoutes: []string{"/announce", "/a/:k/announce"}, ScrapeRoutes: []string{"/scrape"},
-		ParseOptions: httpfe.ParseOptions{AllowIPSpoofing: cfg.HSpoof, RealIPHeader: cfg.HdrName, MaxNumWant: cfg.MaxNW, DefaultNumWant: cfg.DefNW, MaxScrapeInfoHashes: cfg.MaxScrape}})
+		ParseOptions: httpfe.ParseOptions{AllowIPSpoofing: cfg.HSpoof, RealIPHeader: cfg.HdrName, MaxNumWant: fileNW, DefaultNumWant: fileDef, MaxScrapeInfoHashes: fileScr}})
 	clock := int64(0)
 	var terms []string
 	var jobs []interface{}
@@ -530,6 +544,19 @@ func e2eStream(o *Out, rng *rand.Rand, n int) {
 			cfg.Interval += int64(rng.Intn(999999999)) // sub-second part
 		}
 		cfg.Timing = rng.Intn(2) == 0
+		if rng.Intn(3) == 0 {
+			// a partial configuration: the documented defaults (100 / 50 / 50) apply to what is left out
+			cfg.Omit = 1 + rng.Intn(7)
+			if cfg.Omit&1 != 0 {
+				cfg.MaxNW = 100
+			}
+			if cfg.Omit&2 != 0 {
+				cfg.DefNW = 50
+			}
+			if cfg.Omit&4 != 0 {
+				cfg.MaxScrape = 50
+			}
+		}
 		ihs := make([][]byte, 3)
 		for i := range ihs {
 			ihs[i] = make([]byte, 20)
